@@ -169,15 +169,33 @@ class CallGraph:
             self.by_name.setdefault(f.name, []).append(f)
             if is_property(f.node):
                 self.props.setdefault(f.name, []).append(f)
-        for n in own_nodes(f.node):
-            if isinstance(n, (ast.FunctionDef, ast.AsyncFunctionDef)):
-                g = Func(f.module, f.qualname + "." + n.name, n, f.cls)
-                self.nested.setdefault(id(f.node), {})[n.name] = g
-                self.outer[id(n)] = f
-                self._add(g)
+
+    def nested_of(self, f: Func):
+        """nested defs of f (registered lazily: scanning every function of the package up front is the
+        single most expensive step of building the graph)"""
+        k = id(f.node)
+        nd = self.nested.get(k)
+        if nd is None:
+            nd = {}
+            self.nested[k] = nd
+            for n in own_nodes(f.node):
+                if isinstance(n, (ast.FunctionDef, ast.AsyncFunctionDef)):
+                    g = Func(f.module, f.qualname + "." + n.name, n, f.cls)
+                    nd[n.name] = g
+                    self.outer[id(n)] = f
+                    self._add(g)
+        return nd
 
     def func(self, relpath, qualname) -> Func:
         f = self.funcs.get((relpath, qualname))
+        if f is None and "." in qualname:
+            # a nested def: register the enclosing functions first
+            parts = qualname.split(".")
+            for i in range(1, len(parts)):
+                o = self.funcs.get((relpath, ".".join(parts[:i])))
+                if o is not None:
+                    self.nested_of(o)
+            f = self.funcs.get((relpath, qualname))
         if f is None:
             raise AnalysisError("anchor vanished: %s:%s" % (relpath, qualname))
         return f
@@ -753,7 +771,7 @@ class CallGraph:
             # nested def in this or an enclosing function
             g = f
             while True:
-                nd = self.nested.get(id(g.node), {})
+                nd = self.nested_of(g)
                 if name in nd:
                     return ("func", nd[name])
                 if id(g.node) in self.outer:
@@ -1368,7 +1386,7 @@ class Bounds:
         for k in cls.mro() + self.cg.subclasses(cls):
             for m in k.methods.values():
                 sn = self.cg.self_name(m)
-                for g in [m] + list(self.cg.nested.get(id(m.node), {}).values()):
+                for g in [m] + list(self.cg.nested_of(m).values()):
                     for n in own_nodes(g.node):
                         tgts = []
                         if isinstance(n, ast.Assign):
@@ -2198,12 +2216,14 @@ class _Run:
         self.touches = False
         self.wild = False
         self.unresolved = []
+        self.unknown_calls = []  # calls of computed values (nothing is known about the callee)
         self.call_states = []   # (call node, target Func, state before, {callee key: caller key})
         self.lows = []          # stack of {key: lowest lo seen} trackers (try bodies)
         self.accs = []          # stack of [state] accumulators (try bodies)
         self.seek_events = 0
         self.seen_states = {}   # id(node) -> joined state before the node (on demand via sa.hooks)
         self._read_before = {}  # id(read call) -> (key, position interval before the read) of the latest evaluation
+        self._fkeys = None
         self.cut = set()        # id(stmt): the path ends here (treated like raise)
         self.assume_true = set()  # id(test expr): loops/ifs with this test never take the false edge
         self.skip_calls = set()   # id(call): the call is treated as having no stream effect
@@ -2410,6 +2430,38 @@ class _Run:
     GROW = ("append", "extend", "insert", "add", "update", "setdefault", "appendleft", "extendleft", "push")
     SHRINK1 = ("pop", "popitem", "popleft", "remove")
 
+    def _key_from_collection(self, key_expr, coll_text):
+        """key_expr is a local name bound only as the (first) target of `for` loops over coll_text / .items() / .keys()"""
+        if not isinstance(key_expr, ast.Name):
+            return False
+        name = key_expr.id
+        binds = self.cg._assignments_to_name(self.f, name)
+        if any(p.arg == name for p in self.cg._params_of(self.f)):
+            return False
+        found = False
+        for n in own_nodes(self.f.node):
+            if isinstance(n, (ast.For, ast.comprehension)):
+                tg = n.target
+                first = tg.elts[0] if isinstance(tg, (ast.Tuple, ast.List)) and tg.elts else tg
+                if isinstance(first, ast.Name) and first.id == name:
+                    it = n.iter
+                    txt = ast.unparse(it)
+                    if txt in (coll_text, coll_text + ".items()", coll_text + ".keys()", "list(%s)" % coll_text,
+                               "list(%s.items())" % coll_text, "list(%s.keys())" % coll_text, "sorted(%s)" % coll_text):
+                        found = True
+                        continue
+                    return False
+            if isinstance(n, ast.Name) and n.id == name and isinstance(n.ctx, (ast.Store, ast.Del)):
+                p = parent(n)
+                ok = False
+                while p is not None and not isinstance(p, ast.stmt) and not isinstance(p, ast.comprehension):
+                    p = parent(p)
+                if isinstance(p, (ast.For, ast.comprehension)) and any(x is n for x in ast.walk(p.target)):
+                    ok = True
+                if not ok:
+                    return False
+        return found
+
     def _collection_call(self, e: ast.Call, st):
         fn = e.func
         if not (isinstance(fn, ast.Attribute) and self.collections):
@@ -2418,8 +2470,10 @@ class _Run:
         if d in self.collections:
             k = "#len:" + d
             if fn.attr in self.SHRINK1:
-                # dict.pop(key, default) does not raise and may remove nothing
-                self._advance(st, k, (-1, 0) if (fn.attr == "pop" and len(e.args) + len(e.keywords) >= 2) else (-1, -1))
+                # dict.pop(key, default) does not raise and may remove nothing -- unless the key was taken from the
+                # collection itself (`for key, v in C.items(): ...; C.pop(key, None)`)
+                soft = fn.attr == "pop" and len(e.args) + len(e.keywords) >= 2 and not self._key_from_collection(e.args[0] if e.args else None, d)
+                self._advance(st, k, (-1, 0) if soft else (-1, -1))
             elif fn.attr in self.GROW or fn.attr in ("clear", "discard", "sort", "reverse", "__setitem__", "__delitem__"):
                 if fn.attr in ("sort", "reverse"):
                     pass
@@ -2877,6 +2931,7 @@ class _Run:
             return self._external(e, st, kind)
         if kind == "unknown" and not ts:
             passed = self._stream_args(e, st)
+            self.unknown_calls.append(e)
             if passed:
                 self.unresolved.append(e)
                 for k in passed:
@@ -2977,12 +3032,30 @@ class _Run:
             return None
         return (base.id, d[0], d[1])
 
+    def _function_stream_keys(self):
+        """keys that this function uses as byte streams anywhere (receiver of read/seek/tell, or a parameter
+        annotated with an IO type)"""
+        if self._fkeys is None:
+            ks = set()
+            for n in own_nodes(self.f.node):
+                if isinstance(n, ast.Call) and isinstance(n.func, ast.Attribute) and n.func.attr in STREAM_METHODS \
+                        and self.sa.is_stream_recv(n.func.value, self.f):
+                    k = self.sa.key_of(n.func.value, self.f)
+                    if k:
+                        ks.add(k)
+            for p in self.cg._params_of(self.f):
+                if p.annotation is not None and "IO" in ast.unparse(p.annotation):
+                    ks.add(p.arg)
+            self._fkeys = ks
+        return self._fkeys
+
     def _stream_args(self, e, st):
         out = []
+        fk = self._function_stream_keys()
         for a in list(e.args) + [kw.value for kw in e.keywords]:
             if isinstance(a, (ast.Name, ast.Attribute)):
                 k = self.sa.key_of(a, self.f)
-                if k is not None and k in st.keys():
+                if k is not None and (k in st.keys() or k in fk):
                     out.append(k)
         return out
 
